@@ -38,6 +38,27 @@ pub enum NewtypeMode {
     Wrapped,
 }
 
+/// What MapAccess/SeqAccess::size_hint reports. The hint is advisory ("if known"): code whose
+/// correctness depends on it is wrong, which is why serde itself only ever uses it, capped, to
+/// pre-allocate.
+#[derive(Clone, Copy, PartialEq, Eq, Debug, Hash, Serialize, Deserialize, PartialOrd, Ord)]
+pub enum SizeHint {
+    None,
+    Exact,
+    /// a lower bound (chunked / streaming producer): half of what actually remains
+    Lower,
+}
+
+impl SizeHint {
+    pub fn report(self, remaining: usize) -> Option<usize> {
+        match self {
+            SizeHint::None => None,
+            SizeHint::Exact => Some(remaining),
+            SizeHint::Lower => Some(remaining / 2),
+        }
+    }
+}
+
 #[derive(Clone, Copy, PartialEq, Eq, Debug, Hash, Serialize, Deserialize)]
 pub struct Medium {
     pub framing: Framing,
@@ -45,7 +66,7 @@ pub struct Medium {
     pub nums: NumDelivery,
     pub newtype: NewtypeMode,
     pub human_readable: bool,
-    pub size_hint: bool,
+    pub size_hint: SizeHint,
 }
 
 impl Medium {
@@ -55,7 +76,7 @@ impl Medium {
         nums: NumDelivery::Typed,
         newtype: NewtypeMode::Transparent,
         human_readable: true,
-        size_hint: false,
+        size_hint: SizeHint::None,
     };
     pub fn keyed(&self) -> bool {
         self.framing != Framing::Positional
@@ -66,7 +87,7 @@ impl Medium {
             | (self.nums as u64) << 4
             | (self.newtype as u64) << 5
             | (self.human_readable as u64) << 6
-            | (self.size_hint as u64) << 7
+            | (self.size_hint as u64) << 7 // two bits
     }
 }
 
